@@ -62,3 +62,8 @@ def fill(add):
         "17 operations x 3 flavours on a warm cache: every file-system system call of the operation fails with every applicable errno, every write is answered short and then failed; each execution is judged: returns a value, Ok is truthful, bystanders intact, content area valid, operated key old or new, retry without faults succeeds and reaches the expected state.",
         "Trusted: the errno applicability table (DESIGN 3.4); ptrace injection replaces the kernel's answer only (no kernel-side partial effects other than the modelled short write).",
         "DESIGN.md 4/C13", "fsx")
+    add("C15", "exploration",
+        "exhaustive operation x hostile-key enumeration with complete system-call effect monitoring under ptrace (fsx monitor mode)",
+        "Every public operation (35 base operations, sync and async variants, 3 flavours) is run with every key of the hostile/confusable set on cold and warm caches with the root given absolute, relative and through a symlink; every path-taking or descriptor-writing system call is recorded with its resolved path: mutating calls only inside the root or on the explicit destination, touched paths derived only from SHA-1(key)/digest, read-only calls issue no mutating call and leave the tree unchanged.",
+        "Trusted: the monitor's system-call table and its mutating/non-mutating classification; lexical path resolution.",
+        "DESIGN.md 4/C15", "fsx")
